@@ -20,9 +20,9 @@ REL = 1e-9
 def cases(ctx):
     for fam in ("DTLZI", "DTLZII", "DTLZIII", "DTLZIV"):
         for m in range(2, 7):
-            for rep in range(ctx.pick(2, 40)):
+            for rep in range(ctx.pick(4, 400)):
                 yield "dtlz", {"family": fam, "m": m, "seed": ctx.subseed(fam, m, rep), "points": ctx.pick(150, 400)}
-    for rep in range(ctx.pick(4, 80)):
+    for rep in range(ctx.pick(8, 800)):
         yield "zdt1", {"seed": ctx.subseed("z", rep), "points": ctx.pick(300, 600)}
         yield "biobj", {"seed": ctx.subseed("b", rep), "points": ctx.pick(300, 600)}
 
